@@ -490,6 +490,24 @@ theorem reader_end_to_end_progress (cfg : RCfg) (items : List Item) (nb : Int) (
     s.connOff < (rstep cfg s (worldEvent items s (.fetch b hwm e))).connOff :=
   world_fetch_progress cfg items nb hnb hwf s hp hs hq b hwm e hne hdata
 
+/-- `reader_loop_is_fetcher`: the front model (§4, `fstep`) lets the fetcher started by `SetOffset(o)` enqueue, as its
+`k`-th message, `(feed log o)[k]` — the `k`-th stored record at or above `o`.  The loop does exactly that, end to end:
+started at an absolute offset or at FirstOffset, under every environment, the `k`-th message it pushes into `r.msgs` is
+the `k`-th stored record at or above the start offset.  (For LastOffset the start is whatever the broker reports as
+last offset; `reader_end_to_end` covers it.) -/
+theorem reader_loop_is_fetcher (cfg : RCfg) (items : List Item) (nb : Int) (hnb : 0 ≤ nb) (hwf : LWF nb items) (o0 : Int)
+    (ho : -2 ≤ o0) (hne : o0 ≠ -1) (xs : List Env) (hx : ∀ x ∈ xs, x.ok items) (k : Nat) (r : Rec)
+    (hk : (worldRun cfg items { offset := o0 } xs).msgs[k]? = some r) :
+    (feed (allRecords items) o0)[k]? = some r := by
+  obtain ⟨t, ht⟩ := world_msgs_prefix cfg items nb hnb hwf o0 ho hne xs hx
+  rw [← ht]
+  have hlt : k < (worldRun cfg items { offset := o0 } xs).msgs.length := by
+    rcases Nat.lt_or_ge k (worldRun cfg items { offset := o0 } xs).msgs.length with h | h
+    · exact h
+    · rw [List.getElem?_eq_none h] at hk; cases hk
+  rw [List.getElem?_append_left hlt]
+  exact hk
+
 /-- a run with a connection lost in the middle of a compressed batch and a re-initialisation -/
 example : (worldRun {} [.b2 3 4 false 24 [(0, 1, 12), (1, 2, 12)], .b2 5 9 true 30 [(0, 3, 20), (4, 4, 20)]] { offset := -2 }
     [.initOk 3 10, .sleepOk, .fetch 10 10 false, .sleepOk, .lost 70 10 false, .sleepOk, .initOk 3 10, .sleepOk,
